@@ -510,7 +510,9 @@ def transforms_bounded(run):
         'cases', r['evaluations'], r['failures'],
         'the real Node.seq_attribute_to_map / map_attribute_to_seq / '
         'index_attribute_to_map / map_attribute_to_index against an oracle '
-        'over ordered dictionaries written from the documentation'))
+        'over ordered dictionaries written from the documentation; and that '
+        'the resulting node graph is a tree (no node object at two '
+        'positions: A-TREE preservation)'))
 
 
 def safe(s):
